@@ -330,6 +330,14 @@ for _h, _fns in (("error", ["create_error_response", "create_error_object", "cre
          defines=["RESP_FAIL=1"], kind="proof", bound="as resp.%s; every subset of allocations fails" % _h,
          flags=["--memory-leak-check"], timeout=300, assumes=CJ_ASSUME)
 
+INFO_COMMON = dict(unwind=26, cbmc_unwindset=CJ_UNWIND + ["cJSON_GetObjectItem.0:6", "cj_name_eq_nocase.0:18", "count_members.0:6", "count_all.0:6"], solver="cadical", kind="proof",
+                   flags=["--memory-leak-check"], timeout=600,
+                   assumes=CJ_ASSUME + ["create_result_response_from_request: recording stub with the ownership contract proved by resp.from_request / resp.result"])
+unit("info", ["C02", "C06"], "units/u_info.c", entry="h_info", functions=["handle_info", "create_info"], shared_tags=True,
+     bound="loop-free handler; every path", expect_tags=["C02.info.answer-lists-name-version-protocol-and-features", "C02.info.exactly-one-value-handed-to-the-response-builder"], **INFO_COMMON)
+unit("info.allocfail", ["C15", "C02", "C06"], "units/u_info.c", entry="h_info", functions=["handle_info", "create_info"], shared_tags=True, defines=["INFO_FAIL=1"],
+     bound="loop-free handler; every subset of its allocations fails", expect_tags=["C15.info.answer-is-complete-or-absent-never-partial", "C15.info.allocation-failure-leaks-nothing"], **INFO_COMMON)
+
 unit("rpc.dispatch", ["C02", "C06"], "units/u_rpc.c", entry="h_rpc_dispatch", functions=["parse_json_rpc", "handle_method", "send_response", "process_fetch"], unwind=16, cbmc_unwindset=CJ_UNWIND + ["cJSON_GetObjectItem.0:6", "cj_name_eq_nocase.0:9"], solver="cadical",
      kind="proof", bound="every combination of method (12 names, unknown, non-string) / id / result / error members",
      expect_tags=["C02.dispatch.exactly-one-handler-per-request-object", "C02.dispatch.each-built-response-is-sent-exactly-once", "C02.dispatch.incoming-result-is-routed-never-answered"],
@@ -416,6 +424,18 @@ unit("fx.notify", ["C01", "C11", "C06"], "units/u_fetch.c", entry="h_fx_notify",
      expect_tags=["C11.notify.every-subscriber-is-sent-the-event-once-whatever-happens-to-the-others", "C01.notify.event-carries-fetch-id-path-event-and-current-value"], **FX_COMMON)
 unit("fx.notify.allocfail", ["C15", "C01", "C06"], "units/u_fetch.c", entry="h_fx_notify", functions=["notify_fetchers", "notify_fetching_peer"], shared_tags=True,
      expect_tags=["C15.notify.a-notification-that-is-sent-is-complete", "C15.notify.no-json-node-left-behind"], **dict(FX_COMMON, defines=FX_COMMON.get("defines", []) + ["FX_ALLOC_FAIL=1"]))
+unit("fx.getelement", ["C08", "C02", "C06"], "units/u_fetch.c", entry="h_fx_getelement", functions=["get_element", "state_matches", "add_item_checked"], shared_tags=True,
+     expect_tags=["C08.get.exactly-the-visible-states-with-a-value-are-listed", "C15.get.a-listed-state-is-complete-path-and-current-value"], **FX_COMMON)
+unit("fx.getelement.allocfail", ["C15", "C06"], "units/u_fetch.c", entry="h_fx_getelement", functions=["get_element", "state_matches", "add_item_checked"], shared_tags=True,
+     expect_tags=["C15.get.a-listed-state-is-complete-path-and-current-value", "C15.get.a-failed-entry-is-not-listed", "C15.get.no-json-node-left-behind"], **dict(FX_COMMON, defines=FX_COMMON.get("defines", []) + ["FX_GET_FAIL=1"]))
+FX_GETALL = dict(FX_COMMON, cbmc_unwindset=FX_COMMON["cbmc_unwindset"] + ["cJSON_GetObjectItem.0:4"])
+unit("fx.getall", ["C08", "C02", "C06"], "units/u_fetch.c", entry="h_fx_getall", functions=["get_elements", "get_elements_in_peer", "get_element", "create_fetch", "alloc_fetch", "free_fetch", "get_params"], shared_tags=True,
+     expect_tags=["C08.get.answer-lists-exactly-the-visible-states", "C02.get.exactly-the-returned-response-was-built"], **FX_GETALL)
+unit("fx.getall.allocfail", ["C15", "C02", "C06"], "units/u_fetch.c", entry="h_fx_getall", functions=["get_elements", "get_elements_in_peer", "get_element", "create_fetch", "alloc_fetch", "free_fetch", "get_params"], shared_tags=True,
+     expect_tags=["C15.get.handler-leaves-no-json-node-behind", "C02.get.exactly-the-returned-response-was-built"], **dict(FX_GETALL, defines=FX_COMMON.get("defines", []) + ["FX_GET_FAIL=1"]))
+unit("fx.getall.rule.allocfail", ["C15", "C02", "C06"], "units/u_fetch.c", entry="h_fx_getall", functions=["get_elements", "create_fetch", "alloc_fetch", "add_matchers", "create_matcher", "free_fetch", "state_matches"], shared_tags=True,
+     expect_tags=["C15.get.handler-leaves-no-json-node-behind", "C02.get.exactly-the-returned-response-was-built"],
+     **dict(FX_GETALL, unwind=14, cbmc_unwindset=CJ_UNWIND + ["cj_name_eq_nocase.0:18", "strcmp.0:18", "strlen.0:18", "memcpy.0:18", "cJSON_GetObjectItem.0:4", "strncmp.0:18"], defines=FX_COMMON.get("defines", []) + ["FX_GET_FAIL=1", "FX_GET_PATH=1"]))
 unit("fx.subscribe", ["C01", "C15", "C06"], "units/u_fetch.c", entry="h_fx_subscribe", functions=["add_fetch_to_state"],
      expect_tags=["C01.subscribe.fetch-added-once-other-subscriptions-kept"], **FX_COMMON)
 unit("fx.addnotify", ["C01", "C08", "C06"], "units/u_fetch.c", entry="h_fx_addnotify", functions=["add_fetch_to_state_and_notify", "state_matches", "add_fetch_to_state", "notify_fetching_peer"],
@@ -526,14 +546,14 @@ PROPERTY_META["C08"] = {'level': 'proof',
                'name EQUALS registered group j (names of 1-2 characters, up to the full 32 groups; prefix-related names included) and has_access is the non-empty intersection; '
                "handle_authentication changes nothing unless the request is well-formed, made before any fetch and the credentials are accepted, then assigns exactly the user's "
                "three group sets and the user name, and never passes the password to a response or a copy; add records the element's access groups; set/call are routed only when "
-               'the caller shares a set group resp. call group; a fetch meets an element only with a shared fetch group; change_password is carried out only for the authorised '
+               'the caller shares a set group resp. call group; a fetch meets an element only with a shared fetch group; a get request lists exactly the states that have a value and share a fetch group with the asking peer (one peer owning one state, fetch-all request); change_password is carried out only for the authorised '
                'cases and wipes the password buffer.',
- 'level_note': 'Not covered: credentials_ok / load_passwd_data (crypt, file parsing), get_elements, origin classification (is_localhost) and the local-only add switch '
+ 'level_note': 'Not covered: credentials_ok / load_passwd_data (crypt, file parsing), get over several peers / states and with matcher rules, origin classification (is_localhost) and the local-only add switch '
                '(compile-time constant false in the verified configuration). Password flow is tracked at pointer level only. cJSON is an assumed model; credential store and '
                'response builders are stubs in the authenticate unit.',
  'explanation': 'C08: harness contracts on init_peer, get_groups, has_access, handle_authentication, add_element_to_peer (access lists), set_or_call, '
-                'add_fetch_to_state_and_notify, change_password.',
- 'not_decided': ['credentials_ok', 'get', 'connection origin', 'all sequences on every transport (only per-call invariants)']}
+                'add_fetch_to_state_and_notify, get_elements / get_element, change_password.',
+ 'not_decided': ['credentials_ok', 'get with rules or over more than one state', 'connection origin', 'all sequences on every transport (only per-call invariants)']}
 
 # ------------------------------------------------------------------------------------------
 # C14 deadlines (timer.c), C07 allocation accounting (alloc.c)
@@ -668,11 +688,12 @@ PROPERTY_META["C15"] = {
     "level_text": ("Allocation failure, per function and for EVERY subset of failing allocations (a superset of single-fault enumeration): the response builders of response.c leak nothing, never send a response without id / payload and own the "
                    "result exactly once; the allocator's accounting stays exact when the OS allocation fails; subscription-table growth that fails changes nothing; an authenticate whose user-name copy fails changes nothing; "
                    "the routed path: create_routed_message builds a complete message or nothing and leaves no node behind, set_or_call never releases a routing request that is already registered (and never leaves an answered one registered), "
-                   "handle_routing_response answers at most once and releases every node once when the copy of the reply, the response object or its rendering fail."),
-    "level_note": ("Covered functions only (response.c, alloc.c, add_fetch_to_state, handle_authentication, create_routed_message, set_or_call, handle_routing_response; add_element_to_peer in the thorough tier). Other handlers of fetch.c / config.c / info.c under allocation failure are not covered; cJSON's own behaviour "
+                   "handle_routing_response answers at most once and releases every node once when the copy of the reply, the response object or its rendering fail; the 'info' handler (create_info) hands a complete answer or none to the response builder and leaks nothing; the 'get' handler (get_elements / get_element / create_fetch / alloc_fetch) lists only complete states, "
+                   "builds exactly the response it returns and leaves no JSON node behind when the fetch record, the states array, a state entry or one of its members cannot be allocated."),
+    "level_note": ("Covered functions only (response.c, alloc.c, add_fetch_to_state, handle_authentication, create_routed_message, set_or_call, handle_routing_response, handle_info / create_info, get_elements / get_element / create_fetch / alloc_fetch; add_element_to_peer in the thorough tier). Matcher construction (add_matchers: the harness lets every operand copy fail), add_fetch_to_peer, config.c and groups.c under allocation failure are not covered; cJSON's own behaviour "
                    "under failure is the executable model's (a failed AddItemToObject does not take ownership). 'Keeps serving afterwards' at daemon level is outside per-function contracts."),
     "explanation": "C15: the harness contracts of the listed units with every allocation (malloc/calloc and every cJSON creator / key copy) allowed to fail independently; cbmc --memory-leak-check and the model's live-node counter as oracles.",
-    "not_decided": ["fetch.c / config.c / info.c handlers under allocation failure", "heap-cap induced failures at daemon level"],
+    "not_decided": ["matcher construction and add_fetch_to_peer in fetch.c, config.c, groups.c under allocation failure", "heap-cap induced failures at daemon level"],
 }
 PROPERTY_META["C19"] = {
     "level": "other",
